@@ -96,8 +96,9 @@ func vAssert(c bool, msg string) {
 		vFailures = append(vFailures, msg)
 	}
 }
-func vChoose(n int, name string) int { return int(vGet(name)) }
-func vNote(msg string)               { vNotes = append(vNotes, msg) }
+func vChoose(n int, name string) int  { return int(vGet(name)) }
+func vNote(msg string)                { vNotes = append(vNotes, msg) }
+func vJDump(doc []byte, label string) { vNotes = append(vNotes, label+"="+string(doc)) }
 func vParam(name string, def int) int {
 	if v, ok := vW.Params[name]; ok {
 		return v
@@ -256,13 +257,13 @@ func vGetwd() string { d, _ := os.Getwd(); return d }
 
 // ---- concrete JSON documents ----
 type vJNode struct {
-	kind  byte // o a s b n i f
-	keys  []string
-	vals  []vJ
-	s     string
-	b     bool
-	i     int64
-	f     float64
+	kind byte // o a s b n i f
+	keys []string
+	vals []vJ
+	s    string
+	b    bool
+	i    int64
+	f    float64
 }
 
 func vJObj() vJ { return vJ{&vJNode{kind: 'o'}} }
@@ -272,12 +273,12 @@ func vJAdd(o vJ, present bool, name string, v vJ) {
 		o.n.vals = append(o.n.vals, v)
 	}
 }
-func vJArr(elems []vJ) vJ  { return vJ{&vJNode{kind: 'a', vals: append([]vJ(nil), elems...)}} }
-func vJStr(s string) vJ    { return vJ{&vJNode{kind: 's', s: s}} }
-func vJBool(b bool) vJ     { return vJ{&vJNode{kind: 'b', b: b}} }
-func vJNull() vJ           { return vJ{&vJNode{kind: 'n'}} }
-func vJInt(i int64) vJ     { return vJ{&vJNode{kind: 'i', i: i}} }
-func vJFloat(f float64) vJ { return vJ{&vJNode{kind: 'f', f: f}} }
+func vJArr(elems []vJ) vJ    { return vJ{&vJNode{kind: 'a', vals: append([]vJ(nil), elems...)}} }
+func vJStr(s string) vJ      { return vJ{&vJNode{kind: 's', s: s}} }
+func vJBool(b bool) vJ       { return vJ{&vJNode{kind: 'b', b: b}} }
+func vJNull() vJ             { return vJ{&vJNode{kind: 'n'}} }
+func vJInt(i int64) vJ       { return vJ{&vJNode{kind: 'i', i: i}} }
+func vJFloat(f float64) vJ   { return vJ{&vJNode{kind: 'f', f: f}} }
 func vFinite(f float64) bool { return !math.IsNaN(f) && !math.IsInf(f, 0) }
 func vJBytes(v vJ) []byte {
 	var buf bytes.Buffer
@@ -432,8 +433,8 @@ func vValidKind(doc []byte, kind string) bool {
 const vC17DocText = `{"swagger":"2.0","info":{"title":"t","version":"1"},"paths":{},"definitions":{"A":{"description":"a","properties":{"x":{"type":"string","x-e":1,"const":1}}}}}`
 
 var (
-	vSharedOnce  sync.Once
-	vSharedDocV  *Swagger
+	vSharedOnce   sync.Once
+	vSharedDocV   *Swagger
 	vSharedCacheV ResolutionCache
 )
 
@@ -444,8 +445,8 @@ func vSharedInit() {
 		vSharedCacheV = defaultResolutionCache()
 	})
 }
-func vSharedDoc() *Swagger           { vSharedInit(); return vSharedDocV }
-func vSharedCache() ResolutionCache  { vSharedInit(); return vSharedCacheV }
+func vSharedDoc() *Swagger              { vSharedInit(); return vSharedDocV }
+func vSharedCache() ResolutionCache     { vSharedInit(); return vSharedCacheV }
 func vShare(v interface{}, name string) {}
 func vTraceBegin()                      {}
 func vTraceEnd(name string)             {}
